@@ -440,8 +440,12 @@ class Particle(BaseParticle, AmpBase):
         m2 = self.decay[0].outs[1].get_mass()
         q = get_relative_p(m, m1, m2)
         q0 = get_relative_p(mass, m1, m2)
+        # q^2 as in the amplitude (HelicityDecay.get_relative_momentum2):
+        # not clamped at zero below the threshold
+        q2 = get_relative_p2(m, m1, m2)
+        q02 = get_relative_p2(mass, m1, m2)
         return self.get_amp(
-            {"m": m}, {"|q|": q, "|q|2": q**2, "|q0|": q0, "|q0|2": q0**2}
+            {"m": m}, {"|q|": q, "|q|2": q2, "|q0|": q0, "|q0|2": q02}
         )
 
     def amp_shape(self):
